@@ -36,8 +36,8 @@ ASSUMPTIONS = ["values are deterministic functions of (sequence, mutators, argum
                "fork() yields a pristine interpreter image for the oracle; the oracle server itself never runs library code",
                "arguments are rebuilt from JSON for every call so no argument object is shared between calls (caller-owned lists are mutated by the code; sharing them would be the harness's aliasing)",
                "calls are atomic (no pre-emption inside a call)"]
-PROBES = ["permutant_after_value", "value_after_permutant", "kappa_family_before_dmax", "default_composition_repeated", "failing_then_succeeding",
-          "same_op_on_A_then_B", "query_after_mutator", "file_built_object", "shuffle_child_queried", "invalid_argument_call", "seam_touched_by_query",
+PROBES = ["object_created_mid_history", "permutant_after_value", "value_after_permutant", "kappa_family_before_dmax", "default_composition_repeated", "failing_then_succeeding",
+          "same_op_on_A_then_B", "query_after_mutator", "file_built_object", "shuffle_child_queried", "invalid_argument_call",
           "oracle_requests", "phospho_distribution_compared", "complexity_call", "user_alphabet_call"]
 
 NOARG = ["get_sequence", "get_length", "get_mean_hydropathy", "get_uversky_hydropathy", "get_WW_hydropathy", "get_fraction_disorder_promoting",
@@ -205,7 +205,22 @@ def gen_plan(streams, tier):
                     ops.append({"o": (o + 1) % len(lens), "q": copy.deepcopy(q)})
         elif x < p_pattern + p_mut:
             ops.append({"o": o, "m": gen_mutator(rnd, strs[o])})
-        elif x < p_pattern + p_mut + 0.08:
+        elif x < p_pattern + p_mut + 0.03 and len(lens) < 7:
+            # a new object appears in the middle of the history: same string as a live one, a permutation, a tandem repeat, or unrelated
+            base = strs[o]
+            kind = rnd.choice(("same", "perm", "double", "fresh"))
+            if kind == "perm":
+                l = list(base); rnd.shuffle(l); ns = "".join(l)
+            elif kind == "double" and len(base) <= 30:
+                ns = base * 2
+            elif kind == "fresh":
+                ns = gen_seq(rnd, rnd.randrange(1, 40))
+            else:
+                ns = base
+            ops.append({"new": {"seq": ns, "how": "file" if rnd.random() < 0.2 else "string"}})
+            lens.append(len(ns))
+            strs.append(ns)
+        elif x < p_pattern + p_mut + 0.11:
             ops.append({"o": o, "shuffle": {"fz": sorted(rnd.sample(range(N), rnd.randrange(0, N))) if rnd.random() < 0.5 else []}})
             lens.append(N)
             strs.append(strs[o])
@@ -295,7 +310,22 @@ def _run(plan, ctx, oracle, seqmod, sfp, spmod, SequenceParameters):
             memo[key] = oracle.ask(seqs[i], muts[i], q)
         return memo[key]
 
+    def build(od, tagn):
+        s_ = od["seq"]
+        if od.get("how") == "file":
+            path = "/sim/n%d.fasta" % tagn
+            fs.files[path] = bytearray((">obj\n" + "\n".join(s_[j:j + 7] for j in range(0, len(s_), 7)) + "\n").encode())
+            add(SequenceParameters(sequenceFile=path), s_, "file")
+        else:
+            add(SequenceParameters(s_), s_, "string")
+        kinds_seen.append(set())
+
     for n, op in enumerate(plan["ops"]):
+        if "new" in op:
+            build(op["new"], n)
+            ctx.probe("object_created_mid_history")
+            ctx.log.emit("new", seq=op["new"]["seq"])
+            continue
         i = op["o"] % len(objs)
         o = objs[i]
         if "m" in op:
@@ -369,7 +399,7 @@ def _run(plan, ctx, oracle, seqmod, sfp, spmod, SequenceParameters):
             ctx.nontrivial = True
         ctx.sig(int(st["dmax"]), int(st["perm"]), int(st["comp"]), int(bool(sites[i])), int(st["pal"]), last_kind[i], name + ("(perm)" if perm_call else ""))
         if got != want:
-            hist = [("obj%d." % (p["o"] % len(objs))) + (p["q"][0] if "q" in p else p["m"][0] if "m" in p else "shuffle") for p in plan["ops"][:n]]
+            hist = [("new" if "new" in p else ("obj%d." % (p["o"] % len(objs))) + (p["q"][0] if "q" in p else p["m"][0] if "m" in p else "shuffle")) for p in plan["ops"][:n]]
             raise Violation("history_dependent", "history_dependent:" + name + ("_perm" if perm_call else ""),
                             "object %d (%s): %s(%s) returned %s after history %s; a fresh object in a pristine interpreter returns %s" % (
                                 i, seqs[i], name, cjson([q[1], q[2]])[:120], cjson(got)[:200], hist[-8:], cjson(want)[:200]))
@@ -408,7 +438,7 @@ def shrink(plan, res):
                 c["objects"][i]["seq"] = cut
                 yield c
     for n, op in enumerate(plan["ops"]):
-        if op.get("o", 0) != 0:
+        if "o" in op and op.get("o", 0) != 0:
             c = copy.deepcopy(plan)
             c["ops"][n]["o"] = 0
             yield c
